@@ -276,7 +276,7 @@ func TestC17(t *testing.T) {
 		}
 	}
 	rapid.Check(t, func(rt *rapid.T) {
-		p := proggen.Gen(rt, proggen.GenOpts{Focus: "all", MinPkgs: 1, MaxPkgs: 3, TestFiles: true, Aliases: true, Rich: true})
+		p := proggen.Gen(rt, proggen.GenOpts{Focus: "all", MinPkgs: 1, MaxPkgs: 3, TestFiles: true, XTest: true, Aliases: true, Rich: true})
 		src := stripTags(p.Sources())
 		c := c17Case{Pkgs: pkgDirs(p), Sources: src}
 		cfg := engine.DefaultConfig()
